@@ -458,7 +458,7 @@ func (c *c08) checkFS(cs *Case, record bool) *Case {
 	label := ""
 	switch mode {
 	case 0: // file-system state: the target is absent / a directory / empty
-		switch kindSel % 4 {
+		switch kindSel % 5 {
 		case 0:
 			delete(q.Files, target.path)
 			label = "state-absent"
@@ -471,8 +471,24 @@ func (c *c08) checkFS(cs *Case, record bool) *Case {
 			label = "state-empty"
 		case 3:
 			// a FIFO or /proc-like file: stat says size 0, reading delivers the text
+			if _, exists := q.Files[target.path]; !exists {
+				return nil
+			}
 			q.Special = append(q.Special, target.path)
 			label = "state-special"
+		case 4:
+			// a symbolic link to the text, which lives under another name in the same directory
+			if _, exists := q.Files[target.path]; !exists || target.path == q.absRoot() || q.Links[target.path] != "" {
+				return nil
+			}
+			real := filepath.Join(filepath.Dir(target.path), "real_"+filepath.Base(target.path))
+			q.Files[real] = q.Files[target.path]
+			delete(q.Files, target.path)
+			if q.Links == nil {
+				q.Links = map[string]string{}
+			}
+			q.Links[target.path] = real
+			label = "state-symlink"
 		}
 	case 1: // errno fault at that call
 		kinds := []int{simrt.FEnoent, simrt.FEisdir, simrt.FEacces, simrt.FEio, simrt.FEloop, simrt.FEnametoolong, simrt.FEnotdir}
@@ -513,7 +529,7 @@ func (c *c08) checkFS(cs *Case, record bool) *Case {
 		v.Plan = plan
 		return v
 	}
-	mustReject := (mode == 0 && kindSel%4 < 2) || mode == 1
+	mustReject := (mode == 0 && kindSel%5 < 2) || mode == 1
 	if mode == 1 {
 		fired := 0
 		for k := simrt.FEnoent; k <= simrt.FEnotdir; k++ {
@@ -526,13 +542,13 @@ func (c *c08) checkFS(cs *Case, record bool) *Case {
 		v.Plan = plan
 		return v
 	}
-	if mode == 0 && kindSel%4 == 3 {
+	if mode == 0 && kindSel%5 >= 3 {
 		// the text is all there: nothing may change
 		if same, what := ref.Same(&got); !same {
-			return violation(cs, "special-file-changes-result", what, fmt.Sprintf("the include target %s reports size 0 to stat (FIFO, /proc-like) but delivers its whole text when read; the result differs from the one with a regular file: field %s\n regular: accepted=%v msg=%q\n special: accepted=%v msg=%q", target.path, what, ref.Accepted, ref.Msg, got.Accepted, got.Msg))
+			return violation(cs, map[bool]string{true: "symlink-changes-result", false: "special-file-changes-result"}[kindSel%5 == 4], what, fmt.Sprintf("the include target %s is %s (the whole text is there when it is read); the result differs from the one with a regular file: field %s\n regular: accepted=%v msg=%q\n now    : accepted=%v msg=%q", target.path, map[bool]string{true: "a symbolic link to a file in the same directory", false: "a FIFO or /proc-like file that reports size 0 to stat and delivers short reads"}[kindSel%5 == 4], what, ref.Accepted, ref.Msg, got.Accepted, got.Msg))
 		}
 	}
-	if mode == 0 && kindSel%4 == 2 && ref.Accepted {
+	if mode == 0 && kindSel%5 == 2 && ref.Accepted {
 		// an empty file is the empty text: must still be a clean verdict (no crash, checked above)
 		_ = got
 	}
